@@ -735,7 +735,25 @@ func inTimeFormat(e *Exec, fn *ssa.Function, a []Value) Value {
 		out = append(out, ch)
 		nib--
 	}
+	// remember the digit string so that Parse of exactly these digits returns ext itself
+	if e.fmtCache == nil {
+		e.fmtCache = map[string]*Term{}
+	}
+	e.fmtCache[digitKey(out, layout)] = ext
 	return e.mkStr(out)
+}
+
+func digitKey(bs []*Term, layout string) string {
+	var sb strings.Builder
+	n := 0
+	for i := 0; i < len(layout) && n < 16; i++ {
+		if layout[i] == '-' || layout[i] == '.' {
+			continue
+		}
+		fmt.Fprintf(&sb, "%d,", bs[i].id)
+		n++
+	}
+	return sb.String()
 }
 
 func inTimeParse(e *Exec, fn *ssa.Function, a []Value) Value {
@@ -753,6 +771,28 @@ func inTimeParse(e *Exec, fn *ssa.Function, a []Value) Value {
 	}
 	ts := e.ts
 	bs := e.strBytes(s)
+	if ext, ok := e.fmtCache[digitKey(bs, layout)]; ok {
+		// exactly the digits produced by Format for ext (separators are checked below)
+		sepOK := ts.True
+		for i := 0; i < len(layout); i++ {
+			if c := layout[i]; c == '-' || c == '.' {
+				sepOK = ts.And(sepOK, ts.Eq(bs[i], ts.Const(8, uint64(c))))
+			}
+		}
+		rest := ts.True
+		nd := 0
+		for i := 0; i < len(layout); i++ {
+			if c := layout[i]; c != '-' && c != '.' {
+				nd++
+				if nd > 16 {
+					rest = ts.And(rest, ts.Eq(bs[i], ts.Const(8, '0')))
+				}
+			}
+		}
+		if sepOK.IsTrue() && rest.IsTrue() {
+			return TupleV{mkTime(e, ext), IfaceV{}}
+		}
+	}
 	var ext *Term = ts.Const(64, 0)
 	nib := 15
 	valid := ts.True
